@@ -21,6 +21,7 @@ import (
 	"strconv"
 	"strings"
 	"sync"
+	"syscall"
 	"time"
 )
 
@@ -536,8 +537,28 @@ func spawn(cfg Config, md Mode, tier string, seed int64, w, n int, outFile strin
 	if verbose {
 		cmd.Stdout = os.Stdout
 	}
-	err := cmd.Run()
-	return errb.String(), err
+	if err := cmd.Start(); err != nil {
+		return "", err
+	}
+	// A worker stops by itself when its budget is used up (between cases). One that is still there long after that is
+	// stuck - in the code under test or in the harness: ask it for a goroutine dump, then kill it; the parent reports
+	// the worker as died.
+	limit := bud + bud/2 + 10*time.Minute
+	done := make(chan error, 1)
+	go func() { done <- cmd.Wait() }()
+	select {
+	case err := <-done:
+		return errb.String(), err
+	case <-time.After(limit):
+		cmd.Process.Signal(syscall.SIGQUIT)
+		select {
+		case <-done:
+		case <-time.After(10 * time.Second):
+			cmd.Process.Kill()
+			<-done
+		}
+		return "worker stuck: no exit " + limit.String() + " after start (budget " + bud.String() + "); goroutine dump follows\n" + errb.String(), fmt.Errorf("worker stuck, killed after %s", limit)
+	}
 }
 
 type tailWriter struct {
